@@ -366,6 +366,9 @@ class WriterStream(C.Stream):
                   "sequential": obs["g_seq"] is None}
         if g != real_g:
             return f"grammar verdicts differ: python checker {real_g} ({obs['g_prefix']}) vs Lean acceptor {g}"
+        # the lemma that is validated rather than proved: a stream the strict grammar accepts obeys `Writer.eventOk`
+        if g["prefix"] and not ans.get("disciplined"):
+            return "the strict grammar accepts this stream but Writer.runDisciplined rejects it (eventOk broken)"
         return None
 
     def nontrivial(self, case, obs):
